@@ -243,6 +243,14 @@ func genPhased(t *rapid.T, local bool) (ClientSpec, []Plan) {
 	cs.RcvBuf = rapid.SampledFrom([]int{4096, 16384, 16384, 16384, 32768, 65536, 65536, 65536, 65536, 131072}).Draw(t, "rcvbuf")
 	nbig := rapid.IntRange(3, 24).Draw(t, "nbig")
 	each := rapid.SampledFrom([]int{9000, 30000, 70000, 140000}).Draw(t, "each")
+	if rapid.IntRange(0, 1).Draw(t, "manysmall") == 0 {
+		// the backlog is made of many small and medium replies instead of a few big ones (the proxy's buffers
+		// grow in many small steps)
+		nbig = rapid.IntRange(150, 800).Draw(t, "nsmall")
+		each = rapid.SampledFrom([]int{12, 90, 400, 1300}).Draw(t, "eachsmall")
+		// ... sent one by one, so that the replies trickle into the client's buffers one at a time
+		cs.PauseUs = rapid.SampledFrom([]int{30, 150}).Draw(t, "trickle")
+	}
 	if cs.RcvBuf == 4096 && nbig*each > 160000 {
 		each = 160000 / nbig // a 4 KiB window moves only tens of KB per second
 	}
